@@ -1198,19 +1198,21 @@ def corpus(ctx):
     names_small = {k: NAMES_TREE[k] for k in ("we\\ird.txt", "sp ace", ".hidden", "\u65e5\u672c/\U0001f600",
                                               "cafe\u0301.txt", "caf\u00e9.txt", "x.dir")}
     shapes = {"one/two/three/f": b"DEEP", "one/two/three/g": b"DEEP", "one/dup": b"DEEP", "zero": b"", "solo/only": b"ONE"}
+    names_save = {"d/" + k: v for k, v in list(names_small.items())[:3]}
+    names_save["d/zero"] = b""
     out = [
-        # flags: hardlink x verify (per call / store default) x check_exists x shallow
+        # flags: hardlink x verify (per call / store default) x check_exists x shallow - combined with names / shapes
         dict(scenario="stage_transfer", tree=T, hardlink=True, verify=True, label="hardlink+verify"),
-        dict(scenario="stage_transfer", tree=T3, hardlink=True, store_verify=True, label="hardlink+store-verify"),
-        dict(scenario="stage_transfer", tree=T, shallow=True, label="shallow"),
-        dict(scenario="store_transfer", tree=T, shallow=True, src_mode=0o644, label="shallow+unprotected-source"),
-        dict(scenario="store_transfer", tree=T, verify=True, src_mode=0o644, pre=[(b"AAA", 0o644)],
-             label="verify+unprotected-source+right-unprotected"),
+        dict(scenario="stage_transfer", tree=shapes, hardlink=True, store_verify=True,
+             empty_dirs=["hollow/inner", "one/two/void"],
+             label="hardlink+store-verify; shapes: depth>=3, duplicates, zero-length, one-file dir, empty dirs"),
+        dict(scenario="stage_transfer", tree=names_small, shallow=True, label="shallow; names"),
+        dict(scenario="store_transfer", tree=T, shallow=True, verify=True, src_mode=0o644, pre=[(b"AAA", 0o644)],
+             label="store->store: shallow+verify, unprotected source, right object unprotected"),
         dict(scenario="add", tree=T, check_exists=False, label="add-no-check-exists"),
-        dict(scenario="add", tree=T3, hardlink=True, label="add-hardlink"),
-        # (add(hardlink=True, check_exists=False) is not re-runnable by contract: see the report / RULE)
-        dict(scenario="add", tree=T, hardlink=True, verify=True, label="add-hardlink+verify"),
-        dict(scenario="save", tree=T3, hardlink=True, label="save-hardlink"),
+        # (add(hardlink=True, check_exists=False) is not re-runnable by contract: see ASSUMPTIONS)
+        dict(scenario="add", tree=T3, hardlink=True, verify=True, label="add-hardlink+verify, zero-length"),
+        dict(scenario="save", tree=names_save, hardlink=True, label="save-hardlink; names"),
         dict(scenario="upload", tree=T, verify=True, label="upload+verify"),
         # the store the operation starts from (section 5): the inv stores of the theorems
         dict(scenario="stage_transfer", tree=T3, pre=[(b"AAA", 0o644, b"corrupt!"), (b"BB", 0o444)], tmp_left=True,
@@ -1223,11 +1225,6 @@ def corpus(ctx):
         # store class
         dict(scenario="save", tree=T, cls="base", label="base-store save"),
         dict(scenario="add", tree=T, cls="base", verify=True, label="base-store add+verify"),
-        # names and shapes
-        dict(scenario="stage_transfer", tree=names_small, label="names"),
-        dict(scenario="save", tree={"d/" + k: v for k, v in list(names_small.items())[:4]}, label="names (index.save)"),
-        dict(scenario="stage_transfer", tree=shapes, hardlink=True, empty_dirs=["hollow/inner", "one/two/void"],
-             label="shapes: depth>=3, duplicates, zero-length, one-file dir, empty dirs"),
     ]
     out += [dict(scenario="stage_transfer", tree={}, empty_dirs=["only/empty"], label="empty listing (stage+transfer)"),
             dict(scenario="save", tree={}, empty_dirs=["only/empty", "void"], label="empty listing (index.save)")]
@@ -1263,9 +1260,9 @@ def scenarios(ctx):
     out = []
     # (kind, per-call verify, store default verify)
     kinds = [("stage_transfer", False, False), ("save", False, False), ("store_transfer", False, False),
-             ("upload", False, False), ("save", True, False), ("save", False, True)]
+             ("upload", False, False), ("save", False, True)]
     if big:
-        kinds.append(("add", True, False))
+        kinds += [("add", True, False), ("save", True, False)]
     # (several STAGED trees cannot go through one transfer(): every build() returns its own in-memory
     # reference store, so the multi-directory transfer is exercised store -> store)
     kinds += [("multi_store", False, False), ("bad_src", True, False), ("hardlink", False, False)]
